@@ -406,6 +406,36 @@ def run(tier, seed):
             if bad:
                 ob.counterexample = {"outcome": bad[0].kind, "msg": bad[0].msg[:120]}
                 failures.append(("empty_proof", n, (), None, bad[0].kind + " " + bad[0].msg[:100]))
+        # ---- completeness on larger trees (padding nodes, empty subtrees): selected index sets only -----------------------------------
+        for n in range(NMAX + 1, (6 if tier == "quick" else 9) + 1):
+            ctx = Ctx(prog)
+            I = ctx.I
+            leaves, tree, st0 = build_tree(ctx, prog, n, "big%d" % n)
+            I.frame_counter += 1
+            tf = I.frame_counter
+            st0.mem[(tf, 0)] = tree
+            com = call1(ctx, f_commit, [Ref(tf, 0, ())], st0, "to_merkle_tree_batch_commitment")
+            commitment, st1 = com.value, com.state
+            subsets = {tuple(range(n))} | {tuple(j for j in range(n) if j != i) for i in range(n)} | {(i,) for i in range(n)} | {(i, n - 1) for i in range(n - 1)}
+            okall = True
+            for subset in sorted(subsets):
+                s = st1.fork()
+                p = call1(ctx, f_path, [Ref(tf, 0, ()), Agg("vec", None, tuple(z3.IntVal(i) for i in subset))], s, "compute_merkle_tree_batch_path%s" % (subset,))
+                s2 = p.state
+                I.frame_counter += 1
+                fr = I.frame_counter
+                s2.mem[(fr, 0)] = commitment
+                s2.mem[(fr, 1)] = Agg("vec", None, tuple(leaves[i] for i in subset))
+                s2.mem[(fr, 2)] = p.value
+                for o in I.call_fn(f_verify, [Ref(fr, 0, ()), Ref(fr, 1, ()), Ref(fr, 2, ())], s2):
+                    if smt.check(list(o.pc), timeout_s=tmo).status == "unsat":
+                        continue
+                    if not (o.kind == "return" and o.value.discr == 0):
+                        okall = False
+                        failures.append(("completeness", n, subset, None, "generated proof for leaves %s of a %d-leaf tree does not verify (%s)" % (subset, n, o.kind)))
+            ob = rep.add(core.Obligation("c09_complete_selected_sets_n%d" % n, "smt",
+                                         "n=%d: the generated batch proof verifies for the full leaf set, every all-but-one set, every single leaf and every pair with the last leaf, for all leaf contents" % n, {"vccs": len(subsets)}))
+            ob.status = "discharged" if okall else "failed"
         rep.functions += sorted(set("%s -> %s" % (a, b) for a, b in ctx.I.calls_seen.items() if b.startswith("mir:")))
         # ---- index arithmetic cannot overflow: indices over all of usize, one claimed leaf, tree of 2 leaves ----------------------
         ctx = Ctx(prog, unroll=4)
@@ -464,6 +494,9 @@ def run(tier, seed):
                     native["merkle_forge_spec"] = spec
                     native["merkle_forge"] = native_stm("merkle_forge", json.dumps(spec))
                     reproduced = "control=ok" in native["merkle_forge"] and "forged=accepted" in native["merkle_forge"]
+                if not reproduced and clause == "completeness":
+                    native["merkle_full_set"] = native_stm("merkle_full_set")
+                    reproduced = "VIOLATED" in native["merkle_full_set"]
                 if not reproduced:
                     native["merkle_battery"] = native_stm("merkle_battery")
                     reproduced = "VIOLATED" in native["merkle_battery"]
